@@ -2,8 +2,11 @@ package main
 
 import (
 	"bytes"
+	"context"
 	"fmt"
+	"github.com/gobwas/ws/wsutil"
 	"io"
+	"net"
 	"net/url"
 	"strings"
 
@@ -203,6 +206,29 @@ func c16f(c *ctx) {
 				_, _, err := d.Upgrade(conn, uu)
 				emit(map[string]interface{}{"k": "cli", "key": k, "cut": cut, "total": total, "end": e.name, "err": err != nil}, fmt.Sprintf("cli/%d/%v/%s/%v", ri, cut == total, e.name, err == nil))
 			}
+		}
+		// the same cuts through the debug wrapper: same outcome, and OnResponse reports what was received
+		for cut := 0; cut <= total; cut++ {
+			if !c.thorough && cut%3 != 0 && cut < total-6 && cut > 4 {
+				continue
+			}
+			k := fmt.Sprintf("clidebug/%d/%d", ri, cut)
+			if !vh.Only(k) {
+				continue
+			}
+			conn := &cutConn{build: build, cut: cut, chunk: chunkings[cut%3]}
+			var got []byte
+			calls := 0
+			dd := wsutil.DebugDialer{Dialer: ws.Dialer{NetDial: func(ctx context.Context, n, a string) (net.Conn, error) { return conn, nil },
+				Protocols: []string{"chat"}, Extensions: []httphead.Option{{Name: []byte("permessage-deflate")}}},
+				OnResponse: func(b []byte) { got = append([]byte(nil), b...); calls++ }}
+			_, _, _, err := dd.Dial(context.Background(), "ws://example.com/path")
+			want := build(parseHead(conn.req.Bytes()).first("Sec-WebSocket-Key"))
+			if cut < len(want) {
+				want = want[:cut]
+			}
+			emit(map[string]interface{}{"k": "clidebug", "key": k, "cut": cut, "total": total, "err": err != nil, "calls": calls, "reportedOK": bytes.Equal(got, want)},
+				fmt.Sprintf("clidebug/%d/%v/%v", ri, cut == total, err == nil))
 		}
 		for failAt := 1; failAt <= 4; failAt++ {
 			for _, wb := range []int{0, 16} {
